@@ -425,17 +425,76 @@ def _call(args):
         return p.d
 
 
-def pmap(fn, arglist, procs=None):
-    """Run fn(*args) for each args in worker processes; fn returns Part().d"""
+def _child(conn, fn, a):
+    try:
+        conn.send(_call((fn, a)))
+    except BaseException as e:  # pragma: no cover
+        try:
+            p = Part()
+            p.harness_error(f"worker failed to report: {type(e).__name__}: {e}")
+            conn.send(p.d)
+        except Exception:
+            pass
+    finally:
+        conn.close()
+
+
+def pmap(fn, arglist, procs=None, task_timeout=None):
+    """Run fn(*args) for each args in its own forked process (at most `procs` at a time); fn returns Part().d.
+    Every task has a HARD wall-clock limit: a worker stuck inside the solver (z3 can ignore its soft timeout) is
+    killed and reported as inconclusive, so a registered command always terminates."""
     arglist = list(arglist)
     if not arglist:
         return []
     procs = procs or min(int(os.environ.get("VERIF_PROCS", "16")), len(arglist))
-    if procs <= 1:
-        return [_call((fn, a)) for a in arglist]
+    if task_timeout is None:
+        task_timeout = float(os.environ.get("VERIF_TASK_TIMEOUT", "900" if os.environ.get("VERIF_TIER_ACTIVE", "quick") == "quick" else "2700"))
     ctx = mp.get_context("fork")
-    with ctx.Pool(procs, maxtasksperchild=1) as pool:
-        return pool.map(_call, [(fn, a) for a in arglist], chunksize=1)
+    results = [None] * len(arglist)
+    pending = list(enumerate(arglist))
+    running = {}  # idx -> (proc, conn, t0)
+    while pending or running:
+        while pending and len(running) < procs:
+            idx, a = pending.pop(0)
+            parent, child = ctx.Pipe(duplex=False)
+            pr = ctx.Process(target=_child, args=(child, fn, a), daemon=True)
+            pr.start()
+            child.close()
+            running[idx] = (pr, parent, time.time())
+        done = []
+        for idx, (pr, conn, t0) in running.items():
+            if conn.poll(0.01):
+                try:
+                    results[idx] = conn.recv()
+                except EOFError:
+                    p = Part()
+                    p.harness_error(f"worker for task {idx} died without a result")
+                    results[idx] = p.d
+                done.append(idx)
+            elif not pr.is_alive():
+                p = Part()
+                p.harness_error(f"worker for task {idx} exited (code {pr.exitcode}) without a result")
+                results[idx] = p.d
+                done.append(idx)
+            elif time.time() - t0 > task_timeout:
+                pr.kill()
+                p = Part()
+                p.d["inconclusive"].append(f"task {idx} ({getattr(fn, '__name__', 'task')}{tuple(str(x)[:40] for x in arglist[idx])}) killed after {int(task_timeout)} s (solver did not return)")
+                p.d["queries"]["unknown"] += 1
+                results[idx] = p.d
+                done.append(idx)
+        for idx in done:
+            pr, conn, _ = running.pop(idx)
+            try:
+                conn.close()
+            except Exception:
+                pass
+            pr.join(timeout=1)
+            if pr.is_alive():
+                pr.kill()
+        if not done:
+            time.sleep(0.03)
+    return results
 
 
 @contextlib.contextmanager
